@@ -313,6 +313,9 @@ def make_cells(tier):
                 thw = float(np.linalg.norm(wdt))
                 rl = (math.tan(thw / 4) / thw) * wdt if thw > 0 else np.zeros(3)
                 require(np.all(np.isfinite(rl)) and float(rl @ rl) < 1e12)
+                if abs(float(rl @ rl) - 1) < 1e-9:
+                    # half-turn increment: |r| = 1 up to rounding, either representative may come out of cyecca's exp
+                    require(L.mrp_product_ok(r0, rl, 5e-2) and L.mrp_product_ok(r0, -rl / float(rl @ rl), 5e-2))
                 if float(rl @ rl) > 1:
                     rl = -rl / float(rl @ rl)  # cyecca's exp returns the non-shadow MRP
                 require(L.mrp_product_ok(r0, rl, 5e-2))
